@@ -96,7 +96,7 @@ def showClient (c : Client) : String :=
   let wits := if c.witnesses.isEmpty then "-" else ",".intercalate (c.witnesses.map fun w => toString w.id)
   let ev := if c.evidence.isEmpty then "-" else
     ",".intercalate (c.evidence.map fun e => s!"{e.1}:{e.2.conflicting}:{e.2.commonHeight}")
-  let calls := ",".intercalate ((c.primary :: c.witnesses).map fun p => s!"{p.id}:{p.calls}")
+  let calls := ",".intercalate ((c.primary :: c.witnesses).map fun p => s!"{p.id}:{c.calls p.id}")
   s!"store={store} size={c.store.size} latest={latest} prim={c.primary.id} wits={wits} ev={ev} calls={calls}"
 
 def fuelDefault : Nat := 4000
@@ -149,7 +149,7 @@ def step (st : St) (toks : List String) : St × String :=
     match (kv rest "id").bind String.toNat?, (kv rest "chain").bind String.toNat?,
           (kv rest "blocks").bind blkList, late, ov with
     | some id, some chain, some blocks, some (k, lt), some ov =>
-      let p : Prov := { id := id, chain := chain, calls := 0, script := mkScript blocks lt k ov }
+      let p : Prov := { id := id, chain := chain, script := mkScript blocks lt k ov }
       ({ st with provs := (id, p) :: st.provs }, "ok")
     | _, _, _, _, _ => bad
   | "new" :: rest =>
